@@ -120,6 +120,11 @@ func isIdentityrefSimpleFormValid(path []string, sn schema.Node, val string) (st
 	}
 
 	simpleform := strings.TrimPrefix(val, modPrfx)
+	if strings.Contains(simpleform, ":") {
+		// "mod:other:id" is not the qualified form of anything: what is
+		// left must be the name of an identity of this module
+		return "", false
+	}
 
 	// check that possible simpleform value
 	// is a valid identityref value
